@@ -258,7 +258,6 @@ class Parser:
         self.in_recursive_rule = 0
 
         # handle path literal joined-str
-        self._path_token: TokenInfo | None = None
 
         # Pass through common tokenizer methods.
         self._mark = self._tokenizer.mark
@@ -665,7 +664,7 @@ class Parser:
                 end_col_offset=end[1] if end else values[-1].end_col_offset,
             )
 
-        if path_tok or self._path_token:
+        if path_tok or any(getattr(p, "_path_literal", False) for p in parts):
             locs = {
                 "lineno": node.lineno,
                 "col_offset": node.col_offset,
@@ -673,17 +672,16 @@ class Parser:
                 "end_col_offset": node.end_col_offset,
             }
             node = xonsh_call("__xonsh__.path_literal", node, **locs)  # type: ignore[arg-type]
-            self._path_token = None
         return node
 
     def handle_fstring(
         self, a: TokenInfo, b: list[ast.FormattedValue | ast.Constant], **locs: int
     ) -> ast.JoinedStr:
-        path_tok = self._strip_path_prefix(a)
-        if path_tok:
-            self._path_token = path_tok
         b = self._finish_fstring_parts(b, raw="r" in a.string.rstrip("'\"").lower())
-        return ast.JoinedStr(values=b, **locs)
+        node = ast.JoinedStr(values=b, **locs)
+        if self._strip_path_prefix(a):
+            node._path_literal = True  # type: ignore[attr-defined]  # for concatenate_strings
+        return node
 
     def fstring_field(
         self,
